@@ -15,7 +15,7 @@ Blame ==
   @@ "hb.fifo.parent"   :> {"C16"}
   @@ "hb.phase.stream"  :> {"C13"}
   @@ "hb.fifo.stream"   :> {"C13"}
-  @@ "hb.phase.broker"  :> {"C09"}
+  @@ "hb.phase.broker"  :> {"C09"} @@ "hb.phase.broker.restarted" :> {"C09", "C07"}
   @@ "hb.fifo.broker"   :> {"C09"}
   @@ "hb.inst"    :> {"C07"}
   @@ "he.phase"   :> {"C01"}
@@ -30,7 +30,10 @@ Blame ==
   @@ "cb.se"      :> {"C03"}
   @@ "cb.pb"      :> {"C03", "C05"}
   @@ "cb.pe"      :> {"C03"}
-  @@ "cb.pb.failed" :> {"C02", "C03", "C04", "C06"}
+  @@ "cb.pb.failed" :> {"C02", "C03", "C04", "C06"} @@ "cb.pb.failed.restarted" :> {"C02", "C03", "C04", "C06", "C07"}
+  @@ "hb.phase.failed.startErr.restarted" :> {"C06", "C03", "C07"}
+  @@ "oe.res.failed.startErr.restarted" :> {"C06", "C02", "C03", "C07"} @@ "oe.res.failed.startErr.await.restarted" :> {"C06", "C02", "C03", "C04", "C07"}
+  @@ "exit.loop.aftertimeout" :> {"C11", "C03"}
   @@ "oe.res.stopped.failed" :> {"C14", "C06"} @@ "oe.res.running.failed" :> {"C14", "C06"}
   @@ "oe.res.try_from_registry.failed" :> {"C08", "C14", "C06"} @@ "oe.res.already_running.failed" :> {"C08", "C14", "C06"}
   @@ "oe.done.failed" :> {"C08", "C14", "C06"}
@@ -146,8 +149,8 @@ Blame ==
   @@ "tf.k"       :> {"C10"}
   @@ "adv.vt"     :> {"C10", "C11"}
   @@ "adv.pending" :> {"C10", "C11"}
-  @@ "blk.loop.closed.subscribed" :> {"C05", "C09"} @@ "q.loops.closed.subscribed" :> {"C05", "C09"} @@ "un.loop.closed.subscribed" :> {"C05", "C09"}
-  @@ "blk.loop.closed.timers" :> {"C05", "C10"} @@ "q.loops.closed.timers" :> {"C05", "C10"} @@ "un.loop.closed.timers" :> {"C05", "C10"}
+  @@ "blk.loop.closed.subscribed" :> {"C05", "C09", "C03"} @@ "q.loops.closed.subscribed" :> {"C05", "C09", "C03"} @@ "un.loop.closed.subscribed" :> {"C05", "C09", "C03"}
+  @@ "blk.loop.closed.timers" :> {"C05", "C10", "C03"} @@ "q.loops.closed.timers" :> {"C05", "C10", "C03"} @@ "un.loop.closed.timers" :> {"C05", "C10", "C03"}
   @@ "blk.loop.closed" :> {"C05", "C03"} @@ "blk.loop.closed.stream" :> {"C05", "C13", "C03"} @@ "blk.loop.stream" :> {"C13"}
   @@ "blk.loop.deq.mailbox" :> {"C02", "C05"} @@ "blk.loop.deq.ctx.stop" :> {"C04", "C15"} @@ "blk.loop.deq.ctx.restart" :> {"C07", "C15"} @@ "blk.loop.deq.timer" :> {"C10"}
   @@ "blk.loop.deq.parent" :> {"C16"} @@ "blk.loop.deq.broker" :> {"C09"}
